@@ -17,7 +17,7 @@ from ..algebra_lin import linear_form
 
 FILESET = "typhon/files/fileset.py"
 HCOMMON = "typhon/files/handlers/common.py"
-EXPECT = {"C02.table": 18, "C02.year2": 1, "C02.doy": 2, "C02.subsec": 2, "C02.endfill": 4, "C02.default_end": 3, "C02.merge": 4, "C02.reject": 4, "C02.memo": 1}
+EXPECT = {"C02.table": 19, "C02.year2": 1, "C02.doy": 2, "C02.subsec": 2, "C02.endfill": 4, "C02.default_end": 3, "C02.merge": 4, "C02.reject": 4, "C02.memo": 1}
 
 DOCUMENTED = ["year", "year2", "month", "day", "doy", "hour", "minute", "second", "millisecond"]
 FIELD = {"year": "year", "month": "month", "day": "day", "hour": "hour", "minute": "minute", "second": "second"}
@@ -636,7 +636,38 @@ def rule_memo(ctx, rule="C02.memo"):
            "every method that stores a dependency also resets the memo (detector verified on an embedded positive example)", node=f.node, func=f)
 
 
+def rule_regexfill(ctx):
+    ctx.rule("C02.table", "T6", "_fill_placeholders: repetitions of a placeholder are replaced behind its first occurrence, located in the string as it is NOW")
+    f = ctx.func(FILESET, "FileSet._fill_placeholders")
+    flow = Flow(f)
+    pth = f.params[1]
+    loops = [st for st in flow.stmts if isinstance(st, ast.For) and any(
+        isinstance(x, ast.Assign) and norm(x.targets[0]) == pth for x in walk_no_nested(st))]
+    if len(loops) != 1:
+        raise AnalysisError("_fill_placeholders: the loop that rewrites repeated placeholders was not found")
+    lp = loops[0]
+    # the split position: the name used in both slices  path[:k] / path[k:]
+    cuts = [n_ for n_ in walk_no_nested(lp) if isinstance(n_, ast.Subscript) and norm(n_.value) == pth and isinstance(n_.slice, ast.Slice)]
+    ks = {norm(n_.slice.lower or n_.slice.upper) for n_ in cuts if (n_.slice.lower is None) != (n_.slice.upper is None)}
+    if len(ks) != 1 or len(cuts) < 2:
+        raise AnalysisError("_fill_placeholders: head / tail slices of the path at one split position not found")
+    k = list(ks)[0]
+    kdefs = [st for st in walk_no_nested(lp) if isinstance(st, ast.Assign) and norm(st.targets[0]) == k]
+    fresh = False
+    fact = "split position %s is not computed inside the loop" % k
+    if kdefs:
+        v = flow.resolve(kdefs[0].value, at=kdefs[0], depth=2, stop=(pth,))
+        fact = "%s = %s" % (k, norm(v)[:100])
+        searches = [c for c in ast.walk(v) if isinstance(c, ast.Call) and isinstance(c.func, ast.Attribute) and c.func.attr in ("index", "find") and norm(c.func.value) == pth]
+        fresh = bool(searches)
+        if not fresh and not any(isinstance(c, ast.Call) for c in ast.walk(v)):
+            fact += "  [a position remembered from before earlier replacements changed the string]"
+    ctx.ob("FileSet._fill_placeholders.position", fresh, fact,
+           "the first occurrence is searched in the current string on every iteration (replacing one placeholder shifts all positions behind it)",
+           node=kdefs[0] if kdefs else lp, func=f)
+
+
 def run(ctx):
-    for r in (rule_table, rule_year2, rule_doy_subsec, rule_endfill, rule_default_end, rule_merge, rule_reject, rule_memo):
+    for r in (rule_table, rule_year2, rule_doy_subsec, rule_endfill, rule_default_end, rule_merge, rule_reject, rule_memo, rule_regexfill):
         ctx.attempt(r, ctx)
     ctx.attempt(rule_anchor, ctx, "C01.anchor")
